@@ -28,11 +28,11 @@ DETECT = {  # (incoming dir, patch number) -> (detected, by which check / assert
  ('C20-b', 1): (True, 'C20 h_c20_writer: no-user-controlled-tag-open (colour state blue)', ''),
  ('C20-b', 2): (True, 'C20 h_c20_format: no-user-controlled-tag-close (FormatType Keyword / Decorator / Unit)', ''),
  ('C15-a', 1): (True, 'C15 h_c15_string: echoed-string-reads-back-as-the-same-string (backslash directly before a brace)', ''),
- ('C15-a', 2): (False, 'not detected', 'parenthesisation of factorial operands in the expression printer ((3!)! echoed as 3!!): program structure, outside the string-literal kernel that C15 claims'),
+ ('C15-a', 2): (True, 'C15 h_c15_expr: echoed-expression-is-accepted / evaluates-to-the-same-value (template x o x ! o 2)', 'missed while C15 claimed string literals only; caught after the expression echo kernel (symbolic token kinds through parser, checker, printer and back) was added'),
  ('C18-b', 1): (True, 'C18 h_c18_step: operated-list-holds-expected-elements (sole owner, fully consumed view, push)', ''),
  ('C18-b', 2): (True, 'C18 h_c18_step: head-is-first-element (sole owner with view start > 0)', ''),
  ('C10-b', 1): (True, 'C10 h_c10_parse: input-in-grammar-is-accepted (+ - x)', ''),
- ('C10-b', 2): (False, 'not detected', 'double rounding of hex/octal/binary literals above 2^53: numeric values of literals are outside the C10 kernels (every Number token is the literal 1; integer-with-base tokens are not in the alphabet)'),
+ ('C10-b', 2): (False, 'not detected (the check ends with exit 2, undecided, not with a VIOLATION)', 'double rounding of hex/octal/binary literals above 2^53. The literal-value kernel added for this seed (h_c10_literal, digits symbolic) reaches the changed code, but the patched code is a chain of 15+ floating-point multiply-adds on symbolic digits: z3 neither proves the is_finite() branch infeasible nor finds the double-rounding digits within 60 s per query, so the paths are reported undecided. On the unchanged tree (integer accumulation, one int-to-float conversion) the kernel decides every path.'),
  ('C03-b', 1): (True, 'C04 h_c04_convert: conversion-factor-agrees-with-unit-definitions on the compound pair kB/Mbit -> MB/kbit', 'missed by C03 and by the first C04 plan (single units only); caught after compound units (products / quotients / powers with metric and binary prefixes) were added to the C04 plan'),
  ('C03-b', 2): (True, 'C03 h_c03_arith: arithmetic-on-compatible-units-succeeds / zero shortcuts (subnormal operand treated as zero)', ''),
  ('C04-b', 1): (True, 'C04 h_c04_convert: magnitude-grows/shrinks-when-converting (subnormal magnitude returned unscaled)', 'missed at first; caught after the bit-exact ordering claim |conv(a)| > |a| (factor >= 4) / < |a| (factor <= 1/4) was added — the solver proves it for all doubles on the unchanged tree'),
@@ -42,6 +42,16 @@ DETECT = {  # (incoming dir, patch number) -> (detected, by which check / assert
  ('C09-b', 1): (True, 'C09 h_c09_prog: panic in templates builtin-via-function-value / builtin-via-fn-parameter', 'missed by the first template list; caught after templates calling an asymmetric builtin (cons, cons_end) through a function value were added'),
  ('C09-b', 2): (True, 'C09 h_c09_prog: value-equals-source-semantics (template struct-literal-direct-access)', 'missed by the first template list; caught after the template was added'),
  ('C21-b', 1): (True, 'C21 h_c21_eq2: assert_eq2-fails-only-if-different-in-rhs-unit (both operands +inf)', ''),
+ ('C02-a', 1): (True, 'C02 h_c02_solve: substitution-makes-both-sides-equal (one equation with a zero exponent: T0^a L^b ~ Scalar)', 'C02 was not claimed when the seed was written; caught by the constraint-solver kernel'),
+ ('C02-a', 2): (False, 'not detected', 'Environment::apply skips unit definitions when applying the solved substitution: whole-program accept/reject, outside the constraint-solver kernel that C02 claims (program structure has no symbolic value)'),
+ ('C05-b', 1): (True, 'C05 h_c05_simplify: simplification-preserves-magnitude (cm/m * km * N)', 'missed by the first plan (no case with three differently prefixed occurrences of one base unit); caught after such cases were added'),
+ ('C05-b', 2): (True, 'C05 h_c05_simplify: simplification-preserves-dimension; C04 h_c04_convert: magnitude-grows/shrinks-when-converting (subnormal magnitude returned unscaled)', ''),
+ ('C11-b', 1): (True, 'C11 h_c11_vm: ne-is-negation-of-eq (NaN operands)', ''),
+ ('C11-b', 2): (True, 'C11 h_c11_vm: trichotomy (0.0 vs -0.0 under total_cmp)', ''),
+ ('C14-a', 1): (True, 'C14 h_c14_integer: all-digits-are-shown-and-read-back-as-the-value (windows around +-2^31 and 2^32, no separator)', 'missed by the first plan (|x| < 10^5 only); caught after windows around 2^31, 2^32, 2^53 and powers of ten were added'),
+ ('C14-a', 2): (False, 'not detected', 'trailing-zero trimming in the floating-point branch (pretty_dtoa output): outside the integer-branch kernel that C14 claims'),
+ ('C23-a', 1): (True, 'C23 h_c23_temperature: kelvin-to-scale-and-back-restores-the-value (temperature written in millikelvin)', 'missed by the first plan (kelvin only); caught after prefixed-kelvin cases were added'),
+ ('C23-a', 2): (False, 'not detected', 'date-time difference computed from raw timestamps (wrong for instants before 1970 with sub-second parts): date-time arithmetic is C19 / the Unix-time pair of C23, both outside the claimed kernels (jiff calendar arithmetic on symbolic values)'),
  ('C21-b', 2): (True, 'C21 h_c21_eq3: assert_eq3-succeeds-only-if-within-eps (equal operands, NaN / negative eps)', ''),
 }
 props = {json.loads(l)['id']: json.loads(l) for l in open('/verif/properties.jsonl')}
